@@ -121,8 +121,16 @@ func runC04(c *core.Ctx, o Options) {
 	c.Check(len(snd) == 1 && snd[0] == "runReader" && len(rcv) == 0, "F4", "Conn.reader", "only the reader sends; consumers go through Reader()", token.NoPos, "sender runReader", fmt.Sprintf("senders %v, direct receivers %v", snd, rcv))
 	snd, rcv = census("incoming", "DefaultHandler")
 	okRcv := true
+	runNames := map[string]bool{"Run": true, "processRemainingIncoming": true}
+	if run := c.Func("", "DefaultHandler.Run"); run != nil {
+		for f := range sameGoroutineReach(run) { // steps cut out of Run (a listen loop, the two ways it ends) receive on its behalf
+			if f.Signature.Recv() != nil && an.TypeIs(f.Signature.Recv().Type(), "simplefix-go", "DefaultHandler") && !an.IsKnown(f) {
+				runNames[an.NameOf(f)] = true
+			}
+		}
+	}
 	for _, r := range rcv {
-		if r != "Run" && r != "processRemainingIncoming" {
+		if !runNames[r] {
 			okRcv = false
 		}
 	}
@@ -333,7 +341,30 @@ func runC04(c *core.Ctx, o Options) {
 				}
 			}
 		})
-		c.Check(nc != nil && !inLoop(nc.Block()) && nc.Call.Args[1] == ssa.Value(sv.Params[2]), "F6", "Acceptor.serve", "a fresh Conn wraps this connection's socket", sv.Pos(), "NewConn(…, netConn, …)", "serve does not create its own Conn over the socket it was given")
+		if nc == nil {
+			// a small constructor helper of the acceptor (s.newConn(ctx, netConn)) called once from serve
+			for _, h := range pkgHelpersOf(sv) {
+				if owner, _ := an.LogicalOwner(h); owner != sv {
+					continue
+				}
+				an.AllInstrs(h, func(in ssa.Instruction) {
+					if call, ok := in.(*ssa.Call); ok && an.CalleeIs(&call.Call, "simplefix-go", "NewConn") {
+						nc = call
+					}
+				})
+			}
+		}
+		okSock := false
+		if nc != nil && len(nc.Call.Args) > 1 {
+			var sock ssa.Value = nc.Call.Args[1]
+			if p, isP := sock.(*ssa.Parameter); isP && p.Parent() != sv {
+				if a, has := an.OwnerSub(p.Parent())[p]; has {
+					sock = a
+				}
+			}
+			okSock = sock == ssa.Value(sv.Params[2])
+		}
+		c.Check(nc != nil && !inLoop(nc.Block()) && okSock, "F6", "Acceptor.serve", "a fresh Conn wraps this connection's socket", sv.Pos(), "NewConn(…, netConn, …)", "serve does not create its own Conn over the socket it was given")
 		c.Check(mh != nil && an.Render(mh.Call.Value) == "s.factory", "F6", "Acceptor.serve", "the handler comes from the factory for this connection", sv.Pos(), "s.factory.MakeHandler(ctx)", "the handler is not obtained from the factory per connection")
 		stores := 0
 		for _, f := range an.WithAnon(sv) {
@@ -400,58 +431,43 @@ func runC04(c *core.Ctx, o Options) {
 	checkServeIncomingHandsOver(c, "F7")
 	checkReaderQueue(c, "F8", fns)
 	checkBatchUnit(c, "F9")
+	// F11: the reader's own end (the peer hung up) does not cancel the connection's context. What the reader has handed over may
+	// still be on its way to the handler; with the context cancelled, the handler's answer to an earlier message fails in
+	// Conn.Write (ErrConnClosed), the outbound pump's tear-down cancels the handler, and the inbound pump drops the message it holds.
+	if rr := c.Func("", "Conn.runReader"); rr != nil {
+		cancels := ""
+		var where token.Pos = rr.Pos()
+		for _, f := range an.WithAnon(rr) {
+			an.AllInstrs(f, func(in ssa.Instruction) {
+				cc := an.CallOf(in)
+				if cc == nil {
+					return
+				}
+				if fld, _ := an.LoadedField(cc.Value); fld != nil && an.FieldName(fld) == "cancel" {
+					kind := "calls"
+					if _, isD := in.(*ssa.Defer); isD {
+						kind = "defers"
+					}
+					cancels = kind + " " + an.Render(cc.Value) + "()"
+					where = in.Pos()
+				}
+			})
+		}
+		c.Check(cancels == "", "F11", "Conn.runReader", "the reader's end does not cancel the connection's context", where, "no cancel in runReader (Close cancels)",
+			"runReader "+cancels+": when the peer hangs up after sending, the connection's context is cancelled while framed messages are still on their way; an answer the handler sends to an earlier one then fails in Conn.Write, the outbound pump's tear-down cancels the handler, and the inbound pump drops the message it holds")
+	}
 	// F10: the bytes handed to the outgoing queue are not written again — every Prepare builds its image in fresh memory (a message
 	// object that is sent twice must not overwrite the image still waiting in the queue)
 	checkImageFresh(c, "F10")
-	// F5 (who may dispatch): DefaultHandler.serve runs on the handler's own goroutine only — it is called from Run and from the
-	// drain helper Run ends with, never from the pump side (ServeIncoming) or anywhere else
-	if sv, run := c.Func("", "DefaultHandler.serve"), c.Func("", "DefaultHandler.Run"); c.Anchor("dispatcher", sv != nil && run != nil, "DefaultHandler.serve, Run", posOf(sv)) {
-		// what runs on Run's goroutine: Run and everything it reaches through plain static calls inside the package (its drain
-		// helper, steps cut out of its select arms) — not what it starts with go
-		runSide := map[*ssa.Function]bool{}
-		{
-			work := []*ssa.Function{run}
-			for len(work) > 0 {
-				f := work[0]
-				work = work[1:]
-				if f == nil || runSide[f] || f.Blocks == nil || f.Pkg != run.Pkg {
-					continue
-				}
-				runSide[f] = true
-				an.AllInstrs(f, func(in ssa.Instruction) {
-					if _, isGo := in.(*ssa.Go); isGo {
-						return
-					}
-					if cc := an.CallOf(in); cc != nil {
-						work = append(work, an.StaticCallee(cc))
-					}
-				})
-			}
-		}
-		n := 0
-		for _, fn := range fns {
-			an.AllInstrs(fn, func(in ssa.Instruction) {
-				cc := an.CallOf(in)
-				if cc == nil || an.StaticCallee(cc) != sv {
-					return
-				}
-				n++
-				root := fn
-				for root.Parent() != nil {
-					root = root.Parent()
-				}
-				okCaller := runSide[root]
-				_, isGo := in.(*ssa.Go)
-				c.Check(okCaller && !isGo, "F5", an.NameOf(fn), "messages are dispatched by the handler's own goroutine (Run and its drain helper) only", in.Pos(), "called from Run / processRemainingIncoming",
-					an.NameOf(fn)+" calls DefaultHandler.serve: the message is dispatched on another goroutine than Run's, concurrently with and ahead of the messages still waiting in the handler's queue")
-			})
-		}
-		c.Check(n >= 2, "F5", "DefaultHandler.serve", "call sites of serve found", sv.Pos(), fmt.Sprint(n), fmt.Sprintf("%d call sites of serve", n))
-	}
-	c.Explanation += " F5 also: DefaultHandler.serve is called only from Run and the drain helper Run calls (one dispatching goroutine). F10 (= C05.K9): every Prepare builds its image in fresh memory." + " F8 also: the handler's errors channel is unbuffered — StopWithError is a rendezvous with Run, which drains the inbound queue before the reporter's tear-down can cancel the pump. F9: SendBatch takes the send mutex once, outside its loop, and hands each element to the unexported send inside the loop with no lock operation in between — a batch is handed over as a unit, so a message handed over later cannot appear in the middle of it."
+	checkWhoDispatches(c, "F5", fns)
+	c.Explanation += " F11: Conn.runReader neither calls nor defers the connection's cancel function (recorded finding D21: it defers it)." + " F5 also: DefaultHandler.serve is called only from Run and the drain helper Run calls (one dispatching goroutine). F10 (= C05.K9): every Prepare builds its image in fresh memory." + " F8 also: the handler's errors channel is unbuffered — StopWithError is a rendezvous with Run, which drains the inbound queue before the reporter's tear-down can cancel the pump. F9: SendBatch takes the send mutex once, outside its loop, and hands each element to the unexported send inside the loop with no lock operation in between — a batch is handed over as a unit, so a message handed over later cannot appear in the middle of it."
 	c.Explanation += " F4 counts goroutines through helpers shared by both serve functions (a literal inside such a helper runs for each caller; an unexported method or method value handed to errgroup.Go is a goroutine of its caller). F7 also covers every receive from a byte-message channel in the root package: on each path on which the receive succeeded the value is passed on (to a call, a send, a store or the result) before the function returns or loops — a message that is only measured and dropped is lost."
 	c.Explanation += " F8: the capacity of Conn.reader is NewConn's size parameter and that argument is zero at every call site (a constant 0 or a field nothing assigns) — what the reader has queued when the connection ends is not delivered, so nothing may be queued there; no len()/cap() of a channel decides anything in the transport. (The initiating side passes the caller's bufSize: recorded finding D19.)"
-	c.RuleMin = map[string]int{"F1": 3, "F2": 3, "F3": 1, "F4": 6, "F5": 22, "F6": 12, "F7": 8, "F8": 5, "F9": 2, "F10": 1}
+	// F4 also: the only socket option the transport sets is the write deadline; F5 also: each message is offered once per pool
+	checkNoSocketOptionSurprises(c, "F4", fns)
+	checkPoolRange(c, "F5", "Incoming")
+	c.Explanation += " F4 also: no SetDeadline/SetReadDeadline/SetLinger anywhere in the transport (the read side stays un-armed, Close does not discard unsent output). F5 also: IncomingHandlerPool.Range walks the handlers of the requested type only (= C19.H2)."
+	c.RuleMin = map[string]int{"F1": 3, "F2": 3, "F3": 1, "F4": 6, "F5": 22, "F6": 12, "F7": 8, "F8": 5, "F9": 2, "F10": 1, "F11": 1}
 	c.MinObl = 40
 }
 
@@ -1274,4 +1290,57 @@ func checkServeIncomingHandsOver(c *core.Ctx, rule string) {
 	})
 	c.Check((nSel == 1 && ok) || (nSel == 0 && plain), rule, "DefaultHandler.ServeIncoming", "waits for room in the handler's queue (or for the handler to stop); never drops", si.Pos(), "blocking select {incoming <- msg; <-ctx.Done()}",
 		fmt.Sprintf("ServeIncoming's hand-over is not one blocking select on the incoming queue and the handler's context (%d selects): with a default branch or a timeout, messages that arrive while the handler is busy are dropped before any handler sees them", nSel))
+}
+
+// checkWhoDispatches (C04.F5, C20): DefaultHandler.serve runs on the handler's own goroutine only — it is called from Run and
+// from what Run reaches through plain static calls, never from the pump side (ServeIncoming) or anywhere else.
+func checkWhoDispatches(c *core.Ctx, rule string, fns []*ssa.Function) {
+	// F5 (who may dispatch): DefaultHandler.serve runs on the handler's own goroutine only — it is called from Run and from the
+	// drain helper Run ends with, never from the pump side (ServeIncoming) or anywhere else
+	if sv, run := c.Func("", "DefaultHandler.serve"), c.Func("", "DefaultHandler.Run"); c.Anchor("dispatcher", sv != nil && run != nil, "DefaultHandler.serve, Run", posOf(sv)) {
+		runSide := sameGoroutineReach(run)
+		n := 0
+		for _, fn := range fns {
+			an.AllInstrs(fn, func(in ssa.Instruction) {
+				cc := an.CallOf(in)
+				if cc == nil || an.StaticCallee(cc) != sv {
+					return
+				}
+				n++
+				root := fn
+				for root.Parent() != nil {
+					root = root.Parent()
+				}
+				okCaller := runSide[root]
+				_, isGo := in.(*ssa.Go)
+				c.Check(okCaller && !isGo, rule, an.NameOf(fn), "messages are dispatched by the handler's own goroutine (Run and its drain helper) only", in.Pos(), "called from Run / processRemainingIncoming",
+					an.NameOf(fn)+" calls DefaultHandler.serve: the message is dispatched on another goroutine than Run's, concurrently with and ahead of the messages still waiting in the handler's queue")
+			})
+		}
+		c.Check(n >= 2, rule, "DefaultHandler.serve", "call sites of serve found", sv.Pos(), fmt.Sprint(n), fmt.Sprintf("%d call sites of serve", n))
+	}
+}
+
+// sameGoroutineReach: fn and everything it reaches through plain static calls inside its package (helpers, steps cut out of
+// its select arms) — not what it starts with go.
+func sameGoroutineReach(fn *ssa.Function) map[*ssa.Function]bool {
+	set := map[*ssa.Function]bool{}
+	work := []*ssa.Function{fn}
+	for len(work) > 0 {
+		f := work[0]
+		work = work[1:]
+		if f == nil || set[f] || f.Blocks == nil || f.Pkg != fn.Pkg {
+			continue
+		}
+		set[f] = true
+		an.AllInstrs(f, func(in ssa.Instruction) {
+			if _, isGo := in.(*ssa.Go); isGo {
+				return
+			}
+			if cc := an.CallOf(in); cc != nil {
+				work = append(work, an.StaticCallee(cc))
+			}
+		})
+	}
+	return set
 }
